@@ -1,10 +1,170 @@
 import Driver.Util
+import Hv.Patch.Ops
 
-/-! Placeholder: the line-protocol driver of domain C13 is not written yet. -/
+/-! Driver for domain C13: runs the Lean model of `msgpackpatch` / `PatchFields` on the op
+    lines produced by `harness/c13.go` (all byte strings travel as hex on the line).
+
+    ops:   case N
+           parse HEX                         → ok TREE | err CLASS
+           ap BODY COND OP…                  → out HEX wf=0/1 | err CLASS
+           pf STORED CREATE SEED COND OP…    → st=N absent|other|b:HEX wf=0/1 new=HEX|-
+    COND = `-` | op:pathhex:thresholdhex     OP = kind:pathhex:valuehex     empty hex = `-`/""
+
+    A reply is annotated `#F:<id>` where the model's own answer violates the Spec:
+    a reported success whose body the parser rejects, or an (in)equality that is met although an
+    operand is NaN. -/
 namespace Driver.C13
+open Hv.Patch
 
-def run (_args : List String) : IO UInt32 := do
-  IO.eprintln "drv: domain C13 has no driver yet"
-  return 2
+def nib (c : Char) : Option Nat :=
+  if '0' ≤ c ∧ c ≤ '9' then some (c.toNat - '0'.toNat)
+  else if 'a' ≤ c ∧ c ≤ 'f' then some (c.toNat - 'a'.toNat + 10)
+  else if 'A' ≤ c ∧ c ≤ 'F' then some (c.toNat - 'A'.toNat + 10)
+  else none
+
+def unhexL : List Char → Option Bytes
+  | [] => some []
+  | [_] => none
+  | a :: b :: r =>
+    match nib a, nib b, unhexL r with
+    | some x, some y, some t => some (UInt8.ofNat (x * 16 + y) :: t)
+    | _, _, _ => none
+
+def unhex (s : String) : Option Bytes := if s == "-" then some [] else unhexL s.toList
+
+def hexDigit (n : Nat) : Char := if n < 10 then Char.ofNat (48 + n) else Char.ofNat (87 + n)
+
+def hex (b : Bytes) : String :=
+  String.ofList (b.foldr (fun x acc => hexDigit (x.toNat / 16) :: hexDigit (x.toNat % 16) :: acc) [])
+
+def hexOrDash (b : Bytes) : String := if b.isEmpty then "-" else hex b
+
+mutual
+def showNode : Node → String
+  | .leaf raw => "L" ++ hex raw
+  | .map fs => "M{" ++ showFields fs ++ "}"
+  | .arr xs => "A[" ++ showItems xs ++ "]"
+def showFields : Fields → String
+  | [] => ""
+  | [(k, v)] => hex k ++ ":" ++ showNode v
+  | (k, v) :: rest => hex k ++ ":" ++ showNode v ++ "," ++ showFields rest
+def showItems : List Node → String
+  | [] => ""
+  | [v] => showNode v
+  | v :: rest => showNode v ++ "," ++ showItems rest
+end
+
+def condOpOf : String → CondOp
+  | "eq" => .eq | "ne" => .ne | "gt" => .gt | "ge" => .ge | "lt" => .lt | "le" => .le
+  | "ex" => .exists_ | "nex" => .notExists | _ => .unknown
+
+def kindOf : String → OpKind
+  | "set" => .set | "del" => .delete | "inc" => .inc | "app" => .append | "pre" => .prepend
+  | "rmat" => .removeAt | "rmval" => .removeVal | "merge" => .merge | _ => .unknown
+
+def parseCond (s : String) : Option (Option Condition) :=
+  if s == "-" then some none else
+  match s.splitOn ":" with
+  | [o, p, t] =>
+    match unhex p, unhex t with
+    | some pb, some tb => some (some ⟨pb, condOpOf o, tb⟩)
+    | _, _ => none
+  | _ => none
+
+def parseOp (s : String) : Option Op :=
+  match s.splitOn ":" with
+  | [k, p, v] =>
+    match unhex p, unhex v with
+    | some pb, some vb => some ⟨kindOf k, pb, vb⟩
+    | _, _ => none
+  | _ => none
+
+def parseOps : List String → Option (List Op)
+  | [] => some []
+  | s :: r =>
+    match parseOp s, parseOps r with
+    | some o, some os => some (o :: os)
+    | _, _ => none
+
+/-- the condition is an equality-like comparison that was met with a NaN operand -/
+def nanMet (cfg : Cfg) (body : Bytes) (cond : Option Condition) : Bool :=
+  match cond with
+  | none => false
+  | some c =>
+    if c.op = .eq ∨ c.op = .ge ∨ c.op = .le then
+      match parse body with
+      | .error _ => false
+      | .ok t =>
+        match evalCond cfg t c with
+        | .error _ => false
+        | .ok () =>
+          match parsePath c.path with
+          | .error _ => false
+          | .ok segs =>
+            match lookup segs t with
+            | .ok (some (.leaf raw)) =>
+              (match readNumeric raw, readNumeric c.threshold with
+               | .ok (.float, a), .ok (.float, b) => f64IsNaN a || f64IsNaN b
+               | _, _ => false)
+            | _ => false
+    else false
+
+def storedOf (s : String) : Option Stored :=
+  if s == "absent" then some .absent
+  else if s == "other" then some .other
+  else if s.startsWith "b:" then (unhex (s.drop 2).toString).map .bytes
+  else none
+
+def showStored : Stored → String
+  | .absent => "absent" | .other => "other" | .bytes r => "b:" ++ hexOrDash r
+
+def step (cfg : Cfg) (mg : Magic) (_ : Unit) (line : String) : Unit × String :=
+  match line.splitOn " " with
+  | ["case", _] => ((), line)
+  | ["parse", h] =>
+    match unhex h with
+    | none => ((), "bad-op")
+    | some b =>
+      match parse b with
+      | .error e => ((), s!"err {e}")
+      | .ok t => ((), "ok " ++ showNode t)
+  | "ap" :: bh :: ch :: opss =>
+    match unhex bh, parseCond ch, parseOps opss with
+    | some body, some cond, some ops =>
+      match applyWithCondition cfg body ops cond with
+      | .error e => ((), s!"err {e}")
+      | .ok out =>
+        let w := wf out
+        let f1 := if w then "" else "\t#F:C13-unvalidated-op-value"
+        let f2 := if nanMet cfg body cond then "\t#F:C13-nan-compares-equal" else ""
+        ((), s!"out {hexOrDash out} wf={if w then 1 else 0}{f1}{f2}")
+    | _, _, _ => ((), "bad-op")
+  | "pf" :: sh :: cr :: seedh :: ch :: opss =>
+    match storedOf sh, unhex seedh, parseCond ch, parseOps opss with
+    | some st, some seed, some cond, some ops =>
+      let (s, st') := patchFields cfg mg st ops cond (cr == "1") seed
+      -- wf: does the parser accept what is stored behind the two prefix bytes;
+      -- new: `PatchFieldsResult.NewMsgpack` (the unwrapped body, only on PATCHED / CREATED)
+      let w := match st' with
+        | .bytes (_ :: _ :: body) => wf body
+        | _ => false
+      let echo := match s, st' with
+        | .patched, .bytes (_ :: _ :: body) => hexOrDash body
+        | .created, .bytes (_ :: _ :: body) => hexOrDash body
+        | _, _ => "-"
+      let f1 := if (s == .patched || s == .created) && !w then "\t#F:C13-unvalidated-op-value" else ""
+      ((), s!"st={s.code} {showStored st'} wf={if w then 1 else 0} new={echo}{f1}")
+    | _, _, _, _ => ((), "bad-op")
+  | _ => ((), "bad-op")
+
+def run (args : List String) : IO UInt32 := do
+  let kv := parseArgs args
+  let nan : NanRule := if arg kv "nanCompare" == "neverEqual" then .neverEqual else .equal
+  let cfg : Cfg := { validatesValues := arg kv "validatesValues" == "yes", nan := nan }
+  let mg : Magic := match unhex (arg kv "magic") with
+    | some [a, b] => ⟨a, b⟩
+    | _ => ⟨0, 0⟩
+  lineLoop (step cfg mg) ()
+  return 0
 
 end Driver.C13
